@@ -29,7 +29,24 @@ type inlAccessor struct {
 	samePkgOnly bool
 }
 
+// forEachHelper: `func (g *DGraph) EachNode(fn func(*Node)) { for _, n := range g.Nodes { [if c { continue }]* fn(n) } }`
+type forEachHelper struct {
+	fn          *types.Func
+	fd          *ast.FuncDecl
+	pkg         *packages.Package
+	src         []byte
+	rng         *ast.RangeStmt
+	filters     []ast.Expr
+	call        *ast.CallExpr
+	fnParam     types.Object
+	params      []types.Object // receiver first (if any), the callback parameter included
+	samePkgOnly bool
+}
+
 type normaliser struct {
+	feh     map[*types.Func]*forEachHelper
+	fehNo   map[*types.Func]bool
+	labelNo int
 	m     *Model
 	acc   map[*types.Func]*inlAccessor
 	state map[*types.Func]int // 1 = in progress, 2 = rejected
@@ -310,6 +327,15 @@ func (nz *normaliser) render(e ast.Node, p *packages.Package, src []byte, subst 
 					rs = append(rs, repl{nz.offset(x.Pos()), nz.offset(x.End()), t})
 				}
 			}
+		case *ast.ExprStmt:
+			if depth > 6 {
+				return true
+			}
+			if txt, ok := nz.renderForEach(x, p, src, subst, depth); ok {
+				nz.calls++
+				rs = append(rs, repl{nz.offset(x.Pos()), nz.offset(x.End()), txt})
+				return false
+			}
 		case *ast.CallExpr:
 			if depth > 6 {
 				return true
@@ -353,7 +379,7 @@ func (nz *normaliser) render(e ast.Node, p *packages.Package, src []byte, subst 
 // normaliseAccessors returns an overlay (file name -> contents) in which every eligible accessor call of the module's
 // non-test files is inlined, and the number of rewritten call sites. Files without such calls are left out.
 func normaliseAccessors(m *Model) (map[string][]byte, int) {
-	nz := &normaliser{m: m, acc: map[*types.Func]*inlAccessor{}, state: map[*types.Func]int{}, srcs: map[string][]byte{}}
+	nz := &normaliser{m: m, acc: map[*types.Func]*inlAccessor{}, state: map[*types.Func]int{}, srcs: map[string][]byte{}, feh: map[*types.Func]*forEachHelper{}, fehNo: map[*types.Func]bool{}}
 	out := map[string][]byte{}
 	for _, p := range m.Pkgs {
 		for _, f := range p.Syntax {
@@ -459,4 +485,344 @@ func LoadNormalised(m *Model, o LoadOpts) (*Model, int, error) {
 	}
 	m2.Normalised = n
 	return m2, n, nil
+}
+
+// forEach returns the for-each helper for fn, or nil.
+func (nz *normaliser) forEach(fn *types.Func) *forEachHelper {
+	if fn == nil {
+		return nil
+	}
+	if o := fn.Origin(); o != nil {
+		fn = o
+	}
+	if h, ok := nz.feh[fn]; ok {
+		return h
+	}
+	if nz.fehNo[fn] {
+		return nil
+	}
+	h := nz.tryForEach(fn)
+	if h == nil {
+		nz.fehNo[fn] = true
+		return nil
+	}
+	nz.feh[fn] = h
+	return h
+}
+
+func (nz *normaliser) tryForEach(fn *types.Func) *forEachHelper {
+	fd := nz.m.Decl[fn]
+	p := nz.m.DeclPkg[fn]
+	if fd == nil || p == nil || fd.Body == nil || len(fd.Body.List) != 1 || fd.Type.TypeParams != nil {
+		return nil
+	}
+	if strings.HasSuffix(nz.m.Fset.Position(fd.Pos()).Filename, "_test.go") {
+		return nil
+	}
+	sig := fn.Type().(*types.Signature)
+	if sig.Variadic() || sig.Results().Len() != 0 {
+		return nil
+	}
+	rng, ok := fd.Body.List[0].(*ast.RangeStmt)
+	if !ok || rng.Tok != token.DEFINE || len(rng.Body.List) == 0 {
+		return nil
+	}
+	h := &forEachHelper{fn: fn, fd: fd, pkg: p, rng: rng}
+	h.src = nz.fileSrc(p, fd.Pos())
+	if h.src == nil {
+		return nil
+	}
+	isParam := map[types.Object]bool{}
+	if fd.Recv != nil {
+		if len(fd.Recv.List) != 1 || len(fd.Recv.List[0].Names) != 1 {
+			return nil
+		}
+		o := p.TypesInfo.Defs[fd.Recv.List[0].Names[0]]
+		if o == nil {
+			return nil
+		}
+		h.params = append(h.params, o)
+		isParam[o] = true
+	}
+	for _, fl := range fd.Type.Params.List {
+		if len(fl.Names) == 0 {
+			return nil
+		}
+		for _, nm := range fl.Names {
+			o := p.TypesInfo.Defs[nm]
+			if o == nil {
+				return nil
+			}
+			h.params = append(h.params, o)
+			if _, isFn := o.Type().Underlying().(*types.Signature); isFn {
+				if h.fnParam != nil {
+					return nil
+				}
+				h.fnParam = o
+				continue
+			}
+			isParam[o] = true
+		}
+	}
+	if h.fnParam == nil {
+		return nil
+	}
+	if cs, ok := h.fnParam.Type().Underlying().(*types.Signature); !ok || cs.Results().Len() != 0 || cs.Variadic() {
+		return nil
+	}
+	// the ranged expression: pure in receiver / parameters
+	tmp := &inlAccessor{pkg: p}
+	if !nz.pureExpr(rng.X, p.TypesInfo, isParam, tmp, 0) {
+		return nil
+	}
+	// loop variables
+	loopVar := map[types.Object]bool{}
+	for _, kv := range []ast.Expr{rng.Key, rng.Value} {
+		if id, ok := kv.(*ast.Ident); ok && id.Name != "_" {
+			if o := p.TypesInfo.Defs[id]; o != nil {
+				loopVar[o] = true
+			}
+		} else if kv != nil {
+			if _, isId := kv.(*ast.Ident); !isId {
+				return nil
+			}
+		}
+	}
+	both := map[types.Object]bool{}
+	for o := range isParam {
+		both[o] = true
+	}
+	for o := range loopVar {
+		both[o] = true
+	}
+	n := len(rng.Body.List)
+	for _, st := range rng.Body.List[:n-1] {
+		ifs, ok := st.(*ast.IfStmt)
+		if !ok || ifs.Init != nil || ifs.Else != nil || len(ifs.Body.List) != 1 {
+			return nil
+		}
+		br, ok := ifs.Body.List[0].(*ast.BranchStmt)
+		if !ok || br.Tok != token.CONTINUE || br.Label != nil {
+			return nil
+		}
+		if !nz.pureExpr(ifs.Cond, p.TypesInfo, both, tmp, 0) {
+			return nil
+		}
+		h.filters = append(h.filters, ifs.Cond)
+	}
+	es, ok := rng.Body.List[n-1].(*ast.ExprStmt)
+	if !ok {
+		return nil
+	}
+	call, ok := es.X.(*ast.CallExpr)
+	if !ok || call.Ellipsis.IsValid() {
+		return nil
+	}
+	if id, ok := call.Fun.(*ast.Ident); !ok || p.TypesInfo.Uses[id] != h.fnParam {
+		return nil
+	}
+	for _, a := range call.Args {
+		id, ok := a.(*ast.Ident)
+		if !ok || !loopVar[p.TypesInfo.Uses[id]] {
+			return nil
+		}
+	}
+	h.call = call
+	h.samePkgOnly = tmp.samePkgOnly
+	return h
+}
+
+// renderForEach rewrites the statement `E.Each(..., func(x T) { BODY })` into the helper's loop with BODY in place of the call.
+func (nz *normaliser) renderForEach(st *ast.ExprStmt, p *packages.Package, src []byte, subst map[types.Object]string, depth int) (string, bool) {
+	c, ok := st.X.(*ast.CallExpr)
+	if !ok || c.Ellipsis.IsValid() {
+		return "", false
+	}
+	fn, ok := calleeObj(p.TypesInfo, c).(*types.Func)
+	if !ok {
+		return "", false
+	}
+	h := nz.forEach(fn)
+	if h == nil || (h.samePkgOnly && h.pkg != p) {
+		return "", false
+	}
+	// bind receiver and arguments
+	var actuals []ast.Expr
+	if h.fd.Recv != nil {
+		se, ok := c.Fun.(*ast.SelectorExpr)
+		if !ok || p.TypesInfo.Selections[se] == nil {
+			return "", false
+		}
+		actuals = append(actuals, se.X)
+	}
+	actuals = append(actuals, c.Args...)
+	if len(actuals) != len(h.params) {
+		return "", false
+	}
+	var lit *ast.FuncLit
+	fnValue := ""
+	ns := map[types.Object]string{}
+	for i, o := range h.params {
+		if o == h.fnParam {
+			l, ok := actuals[i].(*ast.FuncLit)
+			if !ok {
+				// a function value (`G.EachNode(params.NodeSizeFunc)`): call it in the loop
+				if !nz.pureExpr(actuals[i], p.TypesInfo, nil, nil, 0) {
+					return "", false
+				}
+				fnValue = "(" + nz.render(actuals[i], p, src, subst, depth+1) + ")"
+				continue
+			}
+			lit = l
+			continue
+		}
+		if !nz.pureExpr(actuals[i], p.TypesInfo, nil, nil, 0) {
+			return "", false
+		}
+		ns[o] = "(" + nz.render(actuals[i], p, src, subst, depth+1) + ")"
+	}
+	if lit == nil && fnValue == "" {
+		return "", false
+	}
+	if lit != nil && lit.Type.Results != nil {
+		return "", false
+	}
+	// the literal's parameter names become the loop variables
+	var litNames []string
+	if lit != nil {
+		for _, fl := range lit.Type.Params.List {
+			if len(fl.Names) == 0 {
+				return "", false
+			}
+			for _, nm := range fl.Names {
+				litNames = append(litNames, nm.Name)
+			}
+		}
+	} else {
+		for range h.call.Args {
+			litNames = append(litNames, "_")
+		}
+	}
+	if len(litNames) != len(h.call.Args) {
+		return "", false
+	}
+	nz.labelNo++
+	fresh := func(k int) string { return "zzNormV" + strings.Repeat("x", k) + string(rune('a'+nz.labelNo%26)) + strings.Repeat("q", nz.labelNo/26) }
+	loopName := map[types.Object]string{}
+	for i, a := range h.call.Args {
+		o := h.pkg.TypesInfo.Uses[a.(*ast.Ident)]
+		name := litNames[i]
+		if name == "_" {
+			name = fresh(i + 1)
+		}
+		if prev, dup := loopName[o]; dup && prev != name {
+			return "", false
+		}
+		loopName[o] = name
+	}
+	kv := [2]string{"_", "_"}
+	used := false
+	for i, e := range []ast.Expr{h.rng.Key, h.rng.Value} {
+		id, ok := e.(*ast.Ident)
+		if !ok || id.Name == "_" {
+			continue
+		}
+		o := h.pkg.TypesInfo.Defs[id]
+		name, passed := loopName[o]
+		if !passed {
+			// used by a filter only?
+			name = fresh(i + 5)
+			loopName[o] = name
+		}
+		kv[i] = name
+		used = true
+	}
+	if !used {
+		return "", false
+	}
+	for o, nme := range loopName {
+		ns[o] = nme
+	}
+	// returns in the literal's body (not in nested literals) mean "next element"
+	label := "zzNormL" + string(rune('a'+nz.labelNo%26)) + strings.Repeat("q", nz.labelNo/26)
+	type repl struct {
+		from, to int
+	}
+	var rets []repl
+	okBody := true
+	if lit == nil {
+		// for k, v := range X { [filters] F(k, v) }
+		var as []string
+		for _, a := range h.call.Args {
+			as = append(as, loopName[h.pkg.TypesInfo.Uses[a.(*ast.Ident)]])
+		}
+		var sb strings.Builder
+		if h.rng.Value == nil {
+			sb.WriteString("for " + kv[0] + " := range " + nz.render(h.rng.X, h.pkg, h.src, ns, depth+1) + " {")
+		} else {
+			sb.WriteString("for " + kv[0] + ", " + kv[1] + " := range " + nz.render(h.rng.X, h.pkg, h.src, ns, depth+1) + " {")
+		}
+		for _, f := range h.filters {
+			sb.WriteString(" if " + nz.render(f, h.pkg, h.src, ns, depth+1) + " { continue };")
+		}
+		sb.WriteString(" " + fnValue + "(" + strings.Join(as, ", ") + ") }")
+		return sb.String(), true
+	}
+	ast.Inspect(lit.Body, func(n ast.Node) bool {
+		switch x := n.(type) {
+		case *ast.FuncLit:
+			return false
+		case *ast.ReturnStmt:
+			if len(x.Results) != 0 {
+				okBody = false
+			}
+			rets = append(rets, repl{nz.offset(x.Pos()), nz.offset(x.End())})
+		case *ast.DeferStmt:
+			okBody = false
+		}
+		return true
+	})
+	if !okBody {
+		return "", false
+	}
+	body := nz.render(lit.Body, p, src, subst, depth+1) // includes the braces
+	if len(rets) > 0 {
+		// re-render with the returns replaced: splice on the original text is not possible after nested rewriting, so only
+		// handle bodies whose rendering left the text unchanged
+		orig := string(src[nz.offset(lit.Body.Pos()):nz.offset(lit.Body.End())])
+		if body != orig {
+			return "", false
+		}
+		base := nz.offset(lit.Body.Pos())
+		var sb strings.Builder
+		cur := 0
+		for _, r := range rets {
+			sb.WriteString(orig[cur : r.from-base])
+			sb.WriteString("continue " + label)
+			cur = r.to - base
+		}
+		sb.WriteString(orig[cur:])
+		body = sb.String()
+	}
+	var sb strings.Builder
+	if len(rets) > 0 {
+		sb.WriteString(label + ":\n")
+	}
+	keyTxt, valTxt := kv[0], kv[1]
+	if h.rng.Value == nil {
+		sb.WriteString("for " + keyTxt + " := range " + nz.render(h.rng.X, h.pkg, h.src, ns, depth+1) + " {")
+	} else {
+		sb.WriteString("for " + keyTxt + ", " + valTxt + " := range " + nz.render(h.rng.X, h.pkg, h.src, ns, depth+1) + " {")
+	}
+	for _, f := range h.filters {
+		sb.WriteString(" if " + nz.render(f, h.pkg, h.src, ns, depth+1) + " { continue };")
+	}
+	// keep the loop variables "used" even when the body ignores them
+	for _, nme := range []string{keyTxt, valTxt} {
+		if strings.HasPrefix(nme, "zzNormV") {
+			sb.WriteString(" _ = " + nme + ";")
+		}
+	}
+	sb.WriteString(" " + body + " }")
+	return sb.String(), true
 }
